@@ -258,3 +258,22 @@ c.site_assert("HTTPConnectionPool._put_conn",
 c.tag("C01", "lease-balance:response-holds-the-only-outstanding-lease", "lease-balance:no-lease-outstanding-after-an-exception",
       "no-raw-socket-ssl-httpclient-error", "put-only-what-was-checked-out", "returns-response")
 c.tag("C04", "attempts<=1+total", "sends-monotone", "no-resend-of-non-idempotent-after-it-may-have-reached-the-server")
+
+# every recursion (retry after error, redirect, status retry) carries the caller's settings on unchanged
+c.site_old = {"in_redirect": "redirect", "in_assert_same_host": "assert_same_host", "in_timeout": "timeout", "in_pool_timeout": "pool_timeout",
+              "in_release_conn": "release_conn", "in_chunked": "chunked", "in_preload": "preload_content", "in_decode": "decode_content"}
+c.site_assert("HTTPConnectionPool.urlopen",
+              "redirect is in_redirect and assert_same_host is in_assert_same_host and timeout is in_timeout and pool_timeout is in_pool_timeout"
+              " and release_conn is (in_preload if in_release_conn is None else in_release_conn) and chunked is in_chunked"
+              " and preload_content is in_preload and decode_content is in_decode",
+              "settings-carried-through-every-recursion")
+c.tag("C05", "settings-carried-through-every-recursion")
+c.tag("C19", "settings-carried-through-every-recursion")
+c.tag("C01", "settings-carried-through-every-recursion")
+c.props.update({"C05"})
+
+# C09: proxy headers are merged into a copy made by this call, never into the caller's / the pool's own header mapping
+c.site_assert("method:update", "fresh(self)", "proxy-headers-merged-into-a-fresh-copy-only")
+c.tag("C09", "proxy-headers-merged-into-a-fresh-copy-only")
+c.tag("C01", "proxy-headers-merged-into-a-fresh-copy-only")
+c.props.update({"C09"})
